@@ -2,8 +2,8 @@ from kdriver import H
 HARNESSES = [
     H("c17_posix_parse_4", 7, timeout=1500, note="POSIX TZ parser (shared::posix) on every byte string of length <= 4 (all 256 byte values, length symbolic incl. 0): returns Ok/Err without panic, overflow or out-of-bounds access; Ok values within the documented ranges. alloc::fmt::format stubbed (error messages are not the subject)"),
     H("c17_posix_parse_4_witness", 7, expect="witness", timeout=1500),
-    H("c17_posix_parse_seeded_2", 20, timeout=1500, note="grammar-aware: one of 4 valid POSIX TZ strings (15 bytes each, covering unquoted/quoted abbreviations, explicit DST offsets, J/n/M rule dates, times beyond 24h), truncated at every position, followed by up to 2 arbitrary bytes"),
-    H("c17_posix_parse_seeded_2_witness", 20, expect="witness", timeout=1500),
+    H("c17_posix_parse_seeded_2", 20, timeout=14000, tier="deep", mem_gb=24, note="grammar-aware: one of 4 valid POSIX TZ strings (15 bytes each, covering unquoted/quoted abbreviations, explicit DST offsets, J/n/M rule dates, times beyond 24h), truncated at every position, followed by up to 2 arbitrary bytes"),
+    H("c17_posix_parse_seeded_2_witness", 20, expect="witness", timeout=14000, tier="deep", mem_gb=24),
     H("c17_parse_i64_6", 8, timeout=600, note="util::parse::i64 on every byte string of length <= 6: Ok iff all ASCII digits (value = decimal value), Err otherwise"),
     H("c17_posix_parse_6", 8, tier="deep", timeout=6000, mem_gb=20),
     H("c17_posix_parse_9", 11, tier="deep", timeout=12000, mem_gb=24),
